@@ -12,15 +12,25 @@ final view — not a restriction of the inputs, so the theorems are not `_partia
 assumption "extraction never fails" is gone: the context may be cancelled at any point (`cancelAt`),
 and the theorems say what is reported then.
 
-On the view abstraction (audit item "private per-file abstraction"): `viewAt` is the fold of the file's
-own keep/write/symlink/delete ops, i.e. the OCI rule restricted to one path whose ancestors are plain
-directories. That the real views obey it is C04's property, not C05's; here it is tied to the code only
+On the view abstraction (audit item "private per-file abstraction"): the specification has its OWN
+reading of "the package is in the image-up-to-layer view" (`Spec.present`/`lastTouch`: the latest layer
+at or below `i` that touches the file wrote it with the package); `IsOrigin`/`originSpec` use only that.
+`C05_spec_view` proves it equal to the model's upward fold `viewAt` (the file's own
+keep/write/symlink/delete ops, i.e. the OCI rule restricted to one path whose ancestors are plain
+directories). That the real views obey it is C04's property, not C05's; here it is tied to the code only
 by the correspondence run on real images (the generator deletes with the file's own whiteout, never via
 an ancestor, and says so in its rule). Package identity is (name, location) = (Nat, file index); one
 extractor per file is a standing modelling assumption because the cache key omits the extractor.
 -/
 import Scalibr.Proofs.Trace
 namespace Scalibr.Trace
+
+/-- The specification's view (downward scan for the latest touch, `Spec.present`) and the model's view
+(`viewAt`, the fold the trace loop's correctness argument runs on) are the same — so `IsOrigin` and
+`originSpec`, which never mention the model, speak about the views the model computes. -/
+theorem C05_spec_view (h : History) (i : Nat) (p : Pkg) :
+    present h i p = (match viewAt h i with | some ps => ps.contains p | none => false) := by
+  rw [present_eq]; cases viewAt h i <;> rfl
 
 /-- THE statement, for every cancellation point and every valid shared state: a reported package
 carries the layer that introduced it — the least `L` such that the package is present in every view
@@ -118,7 +128,7 @@ theorem C05_origin_is_write (h : History) (p : Pkg) (L : Nat) (ho : IsOrigin h p
   cases L with
   | zero =>
     refine ⟨?_, Or.inl rfl⟩
-    unfold present at hpL
+    rw [present_eq] at hpL
     rw [viewAt_zero h hL] at hpL
     rw [hget]
     cases hop : h[0] with
@@ -137,7 +147,7 @@ theorem C05_origin_is_write (h : History) (p : Pkg) (L : Nat) (ho : IsOrigin h p
           · exact hpres j (by omega) h2)
         omega
     refine ⟨?_, Or.inr (by simpa using hbelow)⟩
-    unfold present at hpL hbelow
+    rw [present_eq] at hpL hbelow
     rw [viewAt_succ h L hL] at hpL
     rw [hget]
     cases hop : h[L+1] with
@@ -164,27 +174,26 @@ theorem C05_empty_layers_inert (h : History) (p : Pkg) (k : Nat) (hk : k ≤ h.l
   rw [h1, h1', isOrigin_unique _ p _ _ ho'' ho']
   rfl
 
-/-- History ↔ layers: with a valid history (as many non-empty entries as v1 layers) chain layer `i`
-is history entry `i`, carries its command, and the non-empty entries take the v1 layers in order;
-otherwise the history is ignored: one chain layer per v1 layer, no commands.
-(Reviewer: "part 2 is `simp [initChain, hv]`" — yes: the ignored-history branch of the Go code is that
-one expression; the theorem records it so that the driver's alignment is covered for both branches.) -/
+/-- History ↔ layers: `initializeChainLayers` produces exactly the chain the specification prescribes
+(`Spec.specChain`): with a valid history (as many non-empty entries as v1 layers) chain layer `i` is
+history entry `i`, carries its command, and the non-empty entries take the v1 layers in order; otherwise
+the history is ignored: one chain layer per v1 layer, no commands. The driver prints `specChain` and the
+check compares the implementation's DiffID/Command with it.
+(Reviewer: "the ignored-history half is `simp [initChain, hv]`" — yes: that branch of the Go code is one
+expression; the content of the theorem is the valid-history half, `alignLoop_spec`.) -/
 theorem C05_alignment (nLayers : Nat) (hist : List HEntry) :
-    (validHistory nLayers hist = true → initChain nLayers hist = some (alignSpec hist 0 0)) ∧
-    (validHistory nLayers hist = false →
-      initChain nLayers hist = some ((List.range nLayers).map fun i => ⟨i, some i, ""⟩)) := by
-  constructor
-  · intro hv
+    initChain nLayers hist = some (specChain nLayers hist) := by
+  unfold specChain
+  by_cases hv : (hist.filter (fun e => !e.empty)).length = nLayers
+  · have hv' : validHistory nLayers hist = true := by simp [validHistory, hv]
     unfold initChain
-    simp only [hv, Bool.not_true, Bool.false_eq_true, if_false]
-    unfold validHistory at hv
-    simp only [decide_eq_true_eq] at hv
+    simp only [hv', Bool.not_true, Bool.false_eq_true, if_false, hv, if_true]
     rw [alignLoop_spec nLayers hist 0 0 [] (by omega)]
     simp only [List.nil_append, Nat.zero_add]
     rw [alignRest_done nLayers nLayers _ _ _ (by omega)]
-  · intro hv
+  · have hv' : validHistory nLayers hist = false := by simp [validHistory, hv]
     unfold initChain
-    simp [hv]
+    simp [hv', hv]
 
 /-- The reported `LayerDetails` are those of the origin chain layer: Index = the origin, Command = that
 history entry's CreatedBy, DiffID = that of the v1 layer that entry stands for — which is a layer whose
@@ -233,11 +242,30 @@ theorem C05_details (hist : List HEntry) (layerOps : List Op) (p : Pkg)
         · exact Or.inl (by rw [hw])
         · exact Or.inr (by rw [hw])
 
-/-- … and with an ignored history (no or inconsistent history entries): Index = the origin = the v1
-layer's ordinal, no command. -/
-theorem C05_details_no_history (nLayers : Nat) (o : Nat) (ho : o < nLayers) :
-    details ((List.range nLayers).map fun i => (⟨i, some i, ""⟩ : ChainMeta)) o = some (o, some o, "") := by
-  simp [details, ho]
+/-- … and with an ignored history (no or inconsistent history entries; chain layer = v1 layer): the
+reported Index is the origin, the DiffID that of the v1 layer with that ordinal — a layer whose tar has
+an entry for the file holding the package —, and there is no command. -/
+theorem C05_details_no_history (layerOps : List Op) (p : Pkg)
+    (hp : present (chainHistory ((List.range layerOps.length).map fun i => (⟨i, some i, ""⟩ : ChainMeta)) layerOps)
+            (layerOps.length - 1) p = true) :
+    let cms := (List.range layerOps.length).map fun i => (⟨i, some i, ""⟩ : ChainMeta)
+    let h := chainHistory cms layerOps
+    ∃ (o : Nat) (ps : List Pkg),
+      trace h p = some o ∧ detailsOpt cms (trace h p) = some (o, some o, "") ∧
+      (layerOps[o]? = some (.write ps) ∨ layerOps[o]? = some (.link ps)) ∧ ps.contains p = true := by
+  intro cms h
+  have hlen : h.length = layerOps.length := by simp [h, cms, chainHistory]
+  have hp' : present h (h.length - 1) p = true := by rw [hlen]; exact hp
+  obtain ⟨o, htr, horig⟩ := C05_origin h p hp'
+  have ho : o < layerOps.length := by rw [← hlen]; exact horig.1
+  obtain ⟨⟨ps, hw, hps⟩, _⟩ := C05_origin_is_write h p o horig
+  have hho : h[o]? = layerOps[o]? := by
+    simp only [h, cms, chainHistory, List.map_map, List.getElem?_map, List.getElem?_range ho, Option.map_some,
+      Function.comp]
+    simp [List.getD, ho]
+  rw [hho] at hw
+  refine ⟨o, ps, htr, ?_, hw, hps⟩
+  simp [htr, detailsOpt, details, cms, ho]
 
 /-! ### non-vacuity and regression witnesses -/
 
